@@ -3283,6 +3283,43 @@ class PyCdlib:
 
         return num_bytes_to_add
 
+    def _check_new_joliet_udf_paths(self, joliet_path, udf_path):
+        # type: (Optional[str], Optional[str]) -> None
+        """
+        An internal method to check, before anything on the ISO is changed,
+        that new entries can be created at the given Joliet and UDF paths.
+        An edit that spans several filesystems applies them one after the
+        other, so a problem with a later one must be found up front.
+
+        Parameters:
+         joliet_path - The Joliet path of the new entry, if any.
+         udf_path - The UDF path of the new entry, if any.
+        Returns:
+         Nothing.
+        """
+        if joliet_path:
+            if self.joliet_vd is None:
+                raise pycdlibexception.PyCdlibInvalidInput('A Joliet path can only be specified for a Joliet ISO')
+            (joliet_name, joliet_parent) = self._joliet_name_and_parent_from_path(self._normalize_joliet_path(joliet_path))
+            if not joliet_parent.is_dir():
+                raise pycdlibexception.PyCdlibInvalidInput('Trying to add a child to a record that is not a directory')
+            for child in joliet_parent.children:
+                if child.file_ident == joliet_name:
+                    raise pycdlibexception.PyCdlibInvalidInput('Failed adding duplicate name to parent')
+
+        if udf_path:
+            if self.udf_root is None:
+                raise pycdlibexception.PyCdlibInvalidInput('Can only specify a UDF path for a UDF ISO')
+            (udf_name, udf_parent) = self._udf_name_and_parent_from_path(utils.normpath(udf_path))
+            if udf_parent is None or not udf_parent.is_dir():
+                raise pycdlibexception.PyCdlibInvalidInput('Could not find path')
+            try:
+                udf_parent.find_file_ident_desc_by_name(udf_name)
+            except pycdlibexception.PyCdlibInvalidInput:
+                pass
+            else:
+                raise pycdlibexception.PyCdlibInvalidInput('Failed adding duplicate name to parent')
+
     def _add_fp(self, fp, length, manage_fp, iso_path, rr_name,
                 joliet_path, udf_path, file_mode, eltorito_catalog):
         # type: (Optional[Union[BinaryIO, str]], int, bool, Optional[str], Optional[str], Optional[str], Optional[str], Optional[int], bool) -> int
@@ -3316,6 +3353,8 @@ class PyCdlib:
 
         if iso_path is None and joliet_path is None and udf_path is None:
             raise pycdlibexception.PyCdlibInvalidInput("At least one of 'iso_path', 'joliet_path', or 'udf_path' must be provided")
+
+        self._check_new_joliet_udf_paths(joliet_path, udf_path)
 
         fmode = 0
         if file_mode is not None:
@@ -4853,6 +4892,8 @@ class PyCdlib:
         if file_mode is None:
             file_mode = 0o040555
 
+        self._check_new_joliet_udf_paths(joliet_path, udf_path)
+
         num_bytes_to_add = 0
         if iso_path is not None:
             iso_path_bytes = utils.normpath(iso_path)
@@ -4866,6 +4907,12 @@ class PyCdlib:
             (name, parent) = self._iso_name_and_parent_from_path(iso_path_bytes)
 
             _check_iso9660_directory(name, self.interchange_level)
+
+            # Creating the record already updates the Rock Ridge link counts of
+            # the parent, so a duplicate has to be refused before that.
+            for child in parent.children:
+                if child.file_ident == name:
+                    raise pycdlibexception.PyCdlibInvalidInput('Failed adding duplicate name to parent')
 
             relocated = False
             fake_dir_rec = None
